@@ -40,19 +40,27 @@ def LocallySoundB (F : FlagTable) : Bool :=
     (F.expectNot c).as == false) &&
   allBools.all (fun aa => allBools.all fun ac =>
     (F.longest aa ac).as == aa && ((F.longest aa ac).cps || aa || !ac)) &&
-  F.backtrack.as == false && F.fail.as == false
+  F.backtrack.as == false && F.fail.as == false &&
+  allFlags.all (fun a => allFlags.all fun b =>
+    (!(F.apply a b).as || (a.as && b.as)) &&
+    ((F.apply a b).cps || (F.apply a b).as || ((!a.cps || a.as) && b.as))) &&
+  F.py.as == true &&
+  allBools.all (fun hp => allFlags.all fun c =>
+    (!(F.optable hp c).as || c.as) &&
+    ((F.optable hp c).cps || (F.optable hp c).as || (!hp && (!c.cps || c.as))))
 
 theorem locallySound_of_check {F : FlagTable} (h : LocallySoundB F = true) : LocallySound F := by
   simp only [LocallySoundB, Bool.and_eq_true, List.all_eq_true, beq_iff_eq, Bool.or_eq_true,
     Bool.not_eq_true', bne_iff_ne, ne_eq] at h
-  obtain ⟨⟨⟨⟨⟨⟨⟨⟨⟨⟨⟨⟨⟨⟨h1, h2⟩, h3⟩, h4⟩, h5⟩, h6⟩, h7⟩, h8⟩, h9⟩, h10⟩, h11⟩, h12⟩, h13⟩, h14⟩, h15⟩ := h
+  obtain ⟨⟨⟨⟨⟨⟨⟨⟨⟨⟨⟨⟨⟨⟨⟨⟨⟨h1, h2⟩, h3⟩, h4⟩, h5⟩, h6⟩, h7⟩, h8⟩, h9⟩, h10⟩, h11⟩, h12⟩, h13⟩, h14⟩, h15⟩, h16⟩, h17⟩, h18⟩ := h
   refine
     { str_ne := h1, regex := h2, byte := h3, ref_as := h4, ref_cps := h5
       seq_as := ?_, seq_cps := ?_, cls_as := ?_, cls_cps := ?_
       discard_as := ?_, discard_cps := ?_, choice_as := ?_, choice_cps := ?_
       list_as := ?_, list_cps := ?_, sep_as := ?_, sep_cps := ?_
       expect_as := ?_, expect_cps := ?_, expectNot_as := ?_
-      longest_as := ?_, longest_cps := ?_, backtrack := h14, fail := h15 }
+      longest_as := ?_, longest_cps := ?_, backtrack := h14, fail := h15
+      apply_as := ?_, apply_cps := ?_, py_as := h17, optable_as := ?_, optable_cps := ?_ }
   · intro b hb; have := (h6 b (mem_allBools b)).1; simp_all
   · intro b; have := (h6 b (mem_allBools b)).2; exact this
   · intro b hb; have := (h7 b (mem_allBools b)).1; simp_all
@@ -92,5 +100,19 @@ theorem locallySound_of_check {F : FlagTable} (h : LocallySoundB F = true) : Loc
     · simp_all
     · exact Or.inl this
     · exact Or.inr this
+  · intro a b hab; have := (h16 a (mem_allFlags a) b (mem_allFlags b)).1; simp_all
+  · intro a b hab
+    have := (h16 a (mem_allFlags a) b (mem_allFlags b)).2
+    rcases this with (this | this) | this
+    · simp_all
+    · exact Or.inl this
+    · exact Or.inr this
+  · intro hp c hc; have := (h18 hp (mem_allBools hp) c (mem_allFlags c)).1; simp_all
+  · intro hp c hc
+    have := (h18 hp (mem_allBools hp) c (mem_allFlags c)).2
+    rcases this with (this | this) | this
+    · simp_all
+    · exact Or.inl this
+    · right; simp_all
 
 end Sourcer
